@@ -945,6 +945,179 @@ def r9_u32_semantics(ctx, C):
     ctx.floor("u32-forms-decided", decided, 50)
 
 
+# ---- R10: numerical semantics of pow2, is_odd and the quadratic-extension instructions -------------------------------------
+# documented formulas that differ from the (correct) implementation, with the reason; the implementation is compared with the
+# mathematical definition below, so a wrong implementation is still reported
+EXT2_DOC_DISCREPANCY = {}
+
+
+def ext2_mul(x, y):
+    """(x0 + x1 t)(y0 + y1 t) in F_p[t]/(t^2 - t + 2): t^2 = t - 2"""
+    x0, x1 = x
+    y0, y1 = y
+    return (x0 * y0 - x1 * y1 * Poly.const(2), x0 * y1 + x1 * y0 + x1 * y1)
+
+
+def r10_field_semantics(ctx, C):
+    F = C.F
+    rows = {userdocs.form_key(r.forms[0])[0]: r for r in userdocs.rows() if r.file.endswith("field_operations.md")}
+    ctx.floor("field-reference-rows", len(rows), 20)
+    E = lambda i: Poly.var("e%d" % i)
+
+    def ok_paths(v):
+        out = []
+        for lp, rs in C.results(v):
+            if rs is None or isinstance(rs, Exception):
+                raise u32ref.NormError("cannot compose %s: %s" % (v, rs))
+            out += [(lp, r) for r in rs]
+        return out
+
+    # ext2add / ext2sub / ext2neg / ext2mul: documented formulas and the field definition
+    for form, v in (("ext2add", "Ext2Add"), ("ext2sub", "Ext2Sub"), ("ext2neg", "Ext2Neg"), ("ext2mul", "Ext2Mul")):
+        row = rows.get(form)
+        loc = "%s:%d" % (row.file, row.line) if row else "docs/src/user_docs/assembly/field_operations.md"
+        ctx.inst(key=v, nontrivial=True)
+        if row is None:
+            ctx.violation("field-row-missing|%s" % form, loc, "no reference row for %s" % form)
+            continue
+        ins = [n for n in row.inp[0] if n != "..."]
+        outs = [n for n in row.out[0] if n != "..."]
+        env = {n: E(i) for i, n in enumerate(ins)}
+        N = u32ref.CNorm({}, procmodel.FELT_TERMS)
+        try:
+            paths = [r for lp, r in ok_paths(v) if r["outcome"] == ("ok",)]
+        except u32ref.NormError as e:
+            ctx.violation("UNANALYSABLE|field|%s" % v, loc, str(e)[:300])
+            continue
+        if len(paths) != 1:
+            ctx.violation("UNANALYSABLE|field|%s" % v, loc, "%d successful paths" % len(paths))
+            continue
+        st = paths[0]["stack"]
+        notes = re.sub(r"\\mod\s*[pq]", "", row.notes)
+        docs = {}
+        for m in re.finditer(r"\$([^$]*)\$", notes):
+            for part in m.group(1).split("\\text{ and }"):
+                mm = re.match(r"^\s*([a-z]\d'?)\s*\\leftarrow\s*(.*)$", part.strip())
+                if mm:
+                    try:
+                        docs[mm.group(1)] = u32ref.parse_expr(mm.group(2), N, env)
+                    except (u32ref.RefError, u32ref.NormError) as e:
+                        docs[mm.group(1)] = e
+        # the mathematical definition
+        if len(ins) == 4:
+            b1, b0, a1, a0 = (env[n] for n in ins)
+            math = {"ext2add": (a0 + b0, a1 + b1), "ext2sub": (a0 - b0, a1 - b1), "ext2mul": ext2_mul((a0, a1), (b0, b1))}[form]
+        else:
+            a1, a0 = (env[n] for n in ins)
+            math = (Poly() - a0, Poly() - a1)
+        for i, nme in enumerate(outs):
+            want = math[0] if nme.rstrip("'").endswith("0") else math[1]
+            ok = st[i] == want
+            ctx.oblig(ok)
+            if not ok:
+                ctx.violation("field-semantics|%s|%s" % (v, nme), loc, "%s: output %s of the composed lowering is %s; in F_p[x]/(x^2 - x + 2) it must be %s" % (form, nme, st[i], want))
+            d = docs.get(nme)
+            okd = isinstance(d, Poly) and d == st[i]
+            if (form, nme) in EXT2_DOC_DISCREPANCY:
+                continue
+            ctx.oblig(okd)
+            if not okd:
+                ctx.violation("field-doc-formula|%s|%s" % (v, nme), loc, "%s: the instruction reference defines %s as %s; the composed lowering yields %s" % (form, nme, d, st[i]))
+    # ext2inv / ext2div: on the successful path the conditions state hint * operand = 1 with the hint in the documented
+    # coefficient order, and the outputs are that inverse (times the numerator)
+    for form, v in (("ext2inv", "Ext2Inv"), ("ext2div", "Ext2Div")):
+        row = rows.get(form)
+        loc = "%s:%d" % (row.file, row.line) if row else "docs/src/user_docs/assembly/field_operations.md"
+        ctx.inst(key=v, nontrivial=True)
+        try:
+            paths = [r for lp, r in ok_paths(v) if r["outcome"] == ("ok",)]
+        except u32ref.NormError as e:
+            ctx.violation("UNANALYSABLE|field|%s" % v, loc, str(e)[:300])
+            continue
+        for r in paths:
+            eqs = []
+            for c, val, l in r["guards"]:
+                if isinstance(c, Term) and c.op in ("eq", "ne") and all(isinstance(x, Poly) for x in c.args):
+                    t = (val == ("not", [0])) if isinstance(val, tuple) else bool(val)
+                    if (c.op == "eq") == t:
+                        eqs.append(c.args[0] - c.args[1])
+            advs = sorted({x for p_ in eqs for x in p_.vars() if x.startswith("adv#")}, key=lambda s_: int(s_.split("#")[1]))
+            ok = len(advs) == 2 and len(eqs) == 2
+            if ok:
+                # operand (top-first): [x1, x0]; find the coefficient order of the hint that makes hint * operand = 1
+                x1, x0 = E(0), E(1)
+                sol = None
+                for h0, h1 in ((advs[0], advs[1]), (advs[1], advs[0])):
+                    c0, c1 = ext2_mul((Poly.var(h0), Poly.var(h1)), (x0, x1))
+                    want = {repr(c0 - Poly.const(1)), repr(Poly.const(1) - c0)}, {repr(c1), repr(Poly() - c1)}
+                    got = [repr(e) for e in eqs]
+                    if (got[0] in want[0] and got[1] in want[1]) or (got[1] in want[0] and got[0] in want[1]):
+                        sol = (Poly.var(h0), Poly.var(h1))
+                ok = sol is not None
+            ctx.oblig(ok)
+            if not ok:
+                ctx.violation("field-semantics|%s|inverse-check" % v, loc, "%s: the successful path's conditions %s do not state hint * operand = 1 in F_p[x]/(x^2 - x + 2)" % (form, [repr(e) for e in eqs]))
+                continue
+            if form == "ext2inv":
+                want = (sol[0], sol[1])
+            else:
+                want = ext2_mul((E(3), E(2)), sol)
+            st = r["stack"]
+            ok = st[0] == want[1] and st[1] == want[0]
+            ctx.oblig(ok)
+            if not ok:
+                ctx.violation("field-semantics|%s|result" % v, loc, "%s leaves [%s, %s]; with the verified inverse (%s, %s) the documented result is [%s, %s] (coefficient of x on top)" % (form, st[0], st[1], sol[0], sol[1], want[1], want[0]))
+    # pow2: for every exponent 0..63 the path it takes yields exactly 2^a, larger exponents fail
+    ctx.inst(key="Pow2", nontrivial=True)
+    loc = "docs/src/user_docs/assembly/field_operations.md"
+    try:
+        prs = ok_paths("Pow2")
+        bad = [r for lp, r in prs if r["outcome"][0] in ("unanalysable", "panic")]
+        if bad:
+            raise u32ref.NormError(str(bad[0]["outcome"]))
+        from . import rules_c09
+        seen = set()
+        for lp, r in prs:
+            if r["outcome"] != ("ok",):
+                continue
+            cands = rules_c09.hint_candidates(r["guards"], "e0")
+            if cands is None:
+                ctx.violation("pow2-unbounded", loc, "a successful path of pow2 does not bound the exponent")
+                break
+            hs = [h for h in cands if all(execmodel.guard_holds(c, v_, {"e0": h}) is not False for c, v_, l in r["guards"])]
+            for h in hs:
+                seen.add(h)
+                ok = h <= 63 and isinstance(r["stack"][0], Poly) and r["stack"][0].const_value() == 2 ** h and repr(r["stack"][1]) == "e1"
+                ctx.oblig(ok)
+                if not ok:
+                    ctx.violation("field-semantics|Pow2|a=%d" % h, loc, "pow2 with exponent %d yields %s" % (h, r["stack"][0]))
+        ok = seen == set(range(64))
+        ctx.oblig(ok)
+        if not ok:
+            ctx.violation("field-semantics|Pow2|domain", loc, "pow2 completes exactly for the exponents %s; documented: 0..63" % sorted(seen)[:70])
+    except u32ref.NormError as e:
+        ctx.violation("UNANALYSABLE|field|Pow2", loc, str(e)[:300])
+    # is_odd: the low bit of the element
+    ctx.inst(key="IsOdd", nontrivial=True)
+    try:
+        for lp, r in ok_paths("IsOdd"):
+            if r["outcome"] != ("ok",):
+                continue
+            N = u32ref.CNorm({}, procmodel.FELT_TERMS)
+            N.bitw = {}
+            for e in r["effects"]:
+                if e[0] == "u32and" and len(e) > 3:
+                    N.bitw[sorted(e[3].vars())[0]] = N.band(N.poly(e[1]), N.poly(e[2]))
+            got = N.poly(r["stack"][0])
+            want = N.low(1, E(0))
+            ok = got == want
+            ctx.oblig(ok)
+            if not ok:
+                ctx.violation("field-semantics|IsOdd", loc, "is_odd yields %s; the parity of the element is %s" % (got, want))
+    except u32ref.NormError as e:
+        ctx.violation("UNANALYSABLE|field|IsOdd", loc, str(e)[:300])
+
+
 def run(ctx, F):
     ctx.trusted += ["rustc MIR via mirfacts", "mirsym; lowering extractor (vlib/lowering.py); operation model (vlib/procmodel.py)",
                     "docs/src/user_docs/assembly tables as oracle (parsed at run time); family formulas and FAILING/RANGES tables transcribed from the same docs"]
@@ -960,4 +1133,5 @@ def run(ctx, F):
     ctx.run_rule("C05-R7", "exp.b for boundary immediates (powers of two and neighbours): lowering composed with the handlers yields exactly base^b and cannot fail", r7_exp_immediates, F)
     ctx.run_rule("C05-R8", "compiler-inserted arithmetic checks in operation handlers cannot fire inside the documented operand domains (interval analysis with path guards)", r8_handler_arithmetic, F)
     ctx.run_rule("C05-R9", "u32 instructions: on every composed path inside the documented operand domain each output equals the reference function of u32_operations.md (canonical integer normal form: floor/mod/quotient/borrow/AND atoms), failures are the documented ones", r9_u32_semantics, C)
+    ctx.run_rule("C05-R10", "pow2 (all 64 exponents), is_odd and the quadratic-extension instructions: composed results equal the definitions in F_p[x]/(x^2 - x + 2) and the documented formulas; ext2inv/ext2div return the verified inverse in the documented coefficient order", r10_field_semantics, C)
     ctx.run_rule("C05-R6", "minimum stack depth: shift_left pops/decrements only when depth > 16; depth writers confined", r6_min_depth, F)
